@@ -591,4 +591,50 @@ theorem removeclient_clears (w : World) (ci : Nat) (c : Client) (hc : getCli w c
       rw [List.getElem?_eq_none (by omega)]
       rfl
 
+theorem getRq_setRq_same' (w : World) (o : Nat) (r r' : Rq) (h : getRq w o = some r) : getRq (setRq w o r') o = some r' :=
+  getRq_setRq_same w o r r' h
+
+/-- replacing a request's fields other than its count keeps the invariant -/
+theorem setRq_inv (w : World) (fl : Nat → Nat) (o : Nat) (r r' : Rq) (hr : getRq w o = some r) (hrefs : r'.refs = r.refs)
+    (h : Inv w fl) : Inv (setRq w o r') fl := by
+  refine ⟨?_, ?_, ?_⟩
+  · intro o' x hx
+    rw [holders_setRq]
+    by_cases ho : o' = o
+    · subst ho
+      rw [getRq_setRq_same w o' r r' hr] at hx
+      cases hx
+      rw [hrefs]; exact h.refs o' r hr
+    · rw [getRq_setRq_other w o o' r' ho] at hx; exact h.refs o' x hx
+  · intro o' x hx
+    by_cases ho : o' = o
+    · subst ho
+      rw [getRq_setRq_same w o' r r' hr] at hx
+      cases hx
+      rw [hrefs]; exact h.pos o' r hr
+    · rw [getRq_setRq_other w o o' r' ho] at hx; exact h.pos o' x hx
+  · intro o' ho'
+    rw [holders_setRq]
+    by_cases ho : o' = o
+    · subst ho; rw [getRq_setRq_same w o' r r' hr] at ho'; cases ho'
+    · rw [getRq_setRq_other w o o' r' ho] at ho'; exact h.dead o' ho'
+
+/-- **queueing a reply** (`sendreply`): the caller's reference ends up in the client's reply queue, or is dropped
+    when the reply cannot be built — exactly once either way -/
+theorem sendreply_inv (w : World) (fl : Nat → Nat) (o ci : Nat) (r : Rq) (c : Client) (h : Inv w fl)
+    (hr : getRq w o = some r) (hfrm : r.frm = some ci) (hc : getCli w ci = some c) (hfl : 1 ≤ fl o) :
+    Inv (sendreply w o) (fun x => fl x - one o x) := by
+  unfold sendreply
+  rw [hr]
+  simp only [hfrm]
+  have h1 := setRq_inv w fl o r { r with replybuf := replyBytes w r (secretOfCli w ci), msg := none } hr rfl h
+  rw [hfrm] at h1
+  cases hb : replyBytes w r (secretOfCli w ci) with
+  | none =>
+    simp only [hb] at h1 ⊢
+    exact freerq_inv _ fl o h1 hfl
+  | some b =>
+    simp only [hb] at h1 ⊢
+    exact qPush_inv _ fl ci o c h1 (by unfold getCli setRq; exact hc) hfl
+
 end Rsp.Props.C17
